@@ -3,8 +3,8 @@ package main
 import (
 	"fmt"
 	"go/ast"
-	"go/token"
 	"go/types"
+
 	"golang.org/x/tools/go/ssa"
 )
 
@@ -26,39 +26,6 @@ func checkC17(r *Run) {
 	contentRulesSSA(r, "", "", "", "R3")
 	partialResultTypeRule(r, "R4")
 	blockHandOverRule(r, "R5")
-}
-
-// countOnPaths: for every success return of body, the number of calls
-// matching pred on the path (0,1,2=many). Returns the set of counts.
-func countOnPaths(info *types.Info, body *ast.BlockStmt, pred func(*ast.CallExpr) bool, success func(*ast.ReturnStmt) bool) map[int]bool {
-	g := cfgOf(info, body)
-	tr := func(n ast.Node, st int) int {
-		for _, c := range nodeCalls(n) {
-			if pred(c) && st < 2 {
-				st++
-			}
-		}
-		return st
-	}
-	out := map[int]bool{}
-	in := forwardStates(g, 0, tr, nil)
-	for _, b := range g.Blocks {
-		if !b.Live || len(b.Nodes) == 0 {
-			continue
-		}
-		ret, ok := b.Nodes[len(b.Nodes)-1].(*ast.ReturnStmt)
-		if !ok || !success(ret) {
-			continue
-		}
-		for st := range in[b] {
-			s := st
-			for _, n := range b.Nodes {
-				s = tr(n, s)
-			}
-			out[s] = true
-		}
-	}
-	return out
 }
 
 func onlyCount(m map[int]bool, want int) bool {
@@ -112,110 +79,6 @@ func keys(m map[int]bool) []int {
 		}
 	}
 	return out
-}
-
-func contentKeyRule(r *Run, rule string) {
-	w := r.W
-	cf := w.Func("helpers/content", "ContentFor")
-	co := w.Func("helpers/content", "ContentOf")
-	if cf == nil || co == nil {
-		r.Lost(rule, "ContentFor / ContentOf")
-		return
-	}
-	if cf.Obj.Type().(*types.Signature).Results().Len() == 0 {
-		r.Ok(rule, cf.Name(), "no results", w.Pos(cf.Decl.Pos()), "the call evaluates to nil, which the sink drops")
-	} else {
-		r.Bad(rule, cf.Name(), "has results", w.Pos(cf.Decl.Pos()), "contentFor must emit nothing where it is defined: a result would be printed by <%= %> and by helpers that print their value")
-	}
-	keyPrefix := func(f *FuncInfo, method string) (string, string, bool) {
-		info := f.Pkg.TypesInfo
-		for _, c := range callsIn(f.Decl.Body, true) {
-			cal := calleeOf(info, c)
-			if cal == nil || cal.Name() != method || len(c.Args) < 1 {
-				continue
-			}
-			if be, ok := unparen(c.Args[0]).(*ast.BinaryExpr); ok && be.Op == token.ADD {
-				if s, ok := constString(info, be.X); ok {
-					nameP := ""
-					if o := objOf(info, be.Y); o != nil {
-						nameP = o.Name()
-						sig := f.Obj.Type().(*types.Signature)
-						if sig.Params().Len() > 0 && sig.Params().At(0) != o {
-							nameP = ""
-						}
-					}
-					return s, nameP, true
-				}
-			}
-		}
-		return "", "", false
-	}
-	p1, n1, ok1 := keyPrefix(cf, "Set")
-	p2, n2, ok2 := keyPrefix(co, "Value")
-	if ok1 && ok2 && p1 == p2 && n1 != "" && n2 != "" {
-		r.Ok(rule, cf.Name()+"/"+co.Name(), fmt.Sprintf("same key %q + name", p1), w.Pos(co.Decl.Pos()), "definition and lookup agree")
-	} else {
-		r.Bad(rule, cf.Name()+"/"+co.Name(), fmt.Sprintf("keys %q+%s vs %q+%s", p1, n1, p2, n2), w.Pos(co.Decl.Pos()), "contentOf must look the block up under exactly the key contentFor stores it under (constant prefix + the name parameter)")
-	}
-	// the lookup result is asserted to the closure's type
-	cinfo := co.Pkg.TypesInfo
-	okAssert := false
-	inspectBody(co.Decl.Body, false, func(n ast.Node) bool {
-		if ta, ok := n.(*ast.TypeAssertExpr); ok && ta.Type != nil {
-			if _, isSig := cinfo.Types[ta.Type].Type.Underlying().(*types.Signature); isSig {
-				if as, ok := w.Parent(ta).(*ast.AssignStmt); ok && len(as.Lhs) == 2 {
-					okAssert = true
-				}
-			}
-		}
-		return true
-	})
-	if okAssert {
-		r.Ok(rule, co.Name(), "comma-ok assertion of the stored closure", w.Pos(co.Decl.Pos()), "undefined name falls back to the default block or an error")
-	} else {
-		r.Bad(rule, co.Name(), "lookup of the stored closure", w.Pos(co.Decl.Pos()), "the stored value must be recognised with a comma-ok assertion")
-	}
-}
-
-func dataParamRule(r *Run, rule string) {
-	w := r.W
-	for _, spec := range []struct{ rel, name string }{{"", "PartialHelper"}} {
-		f := w.Func(spec.rel, spec.name)
-		if f == nil {
-			continue
-		}
-		info := f.Pkg.TypesInfo
-		sig := f.Obj.Type().(*types.Signature)
-		var dataP *types.Var
-		for i := 0; i < sig.Params().Len(); i++ {
-			if _, ok := sig.Params().At(i).Type().Underlying().(*types.Map); ok {
-				dataP = sig.Params().At(i)
-			}
-		}
-		ok := false
-		inspectBody(f.Decl.Body, false, func(n ast.Node) bool {
-			if rs, isR := n.(*ast.RangeStmt); isR && dataP != nil && objOf(info, rs.X) == dataP {
-				ok = true
-			}
-			return true
-		})
-		reassigned := false
-		inspectBody(f.Decl.Body, false, func(n ast.Node) bool {
-			if as, isAs := n.(*ast.AssignStmt); isAs {
-				for _, l := range as.Lhs {
-					if objOf(info, l) == dataP && dataP != nil {
-						reassigned = true
-					}
-				}
-			}
-			return true
-		})
-		if ok && !reassigned {
-			r.Ok(rule, f.Name(), "ranges over its own data parameter", w.Pos(f.Decl.Pos()), "the caller's data map, unmodified")
-		} else {
-			r.Bad(rule, f.Name(), "data parameter", w.Pos(f.Decl.Pos()), "the data passed by the template must be the map whose entries are bound in the child scope")
-		}
-	}
 }
 
 func partialResultTypeRule(r *Run, rule string) {
@@ -288,33 +151,6 @@ func blockHandOverRule(r *Run, rule string) {
 	}
 	// C12.R5 part: the automatic helper context carries the call's block
 	helperBlockRule(r, rule)
-}
-
-// c12AutoSupplyBlockOnly re-checks only the 'block: node.Block' part of the helper-context literal.
-func c12AutoSupplyBlockOnly(r *Run, rule string, f *FuncInfo) {
-	w := r.W
-	info := f.Pkg.TypesInfo
-	node := f.Obj.Type().(*types.Signature).Params().At(0)
-	ok := false
-	ast.Inspect(f.Decl.Body, func(nd ast.Node) bool {
-		cl, isCl := nd.(*ast.CompositeLit)
-		if !isCl || !namedIs(info.Types[cl].Type, modPath, "HelperContext") {
-			return true
-		}
-		for _, e := range cl.Elts {
-			if kv, isKV := e.(*ast.KeyValueExpr); isKV {
-				if bx, vf := fieldOf(info, kv.Value); vf != nil && vf.Name() == "Block" && objOf(info, bx) == node {
-					ok = true
-				}
-			}
-		}
-		return true
-	})
-	if ok {
-		r.Ok(rule, f.Name(), "helper context carries node.Block", w.Pos(f.Decl.Pos()), "the helper renders the call's own block")
-	} else {
-		r.Bad(rule, f.Name(), "helper context without the call's block", w.Pos(f.Decl.Pos()), "a block helper must receive the block written after its call")
-	}
 }
 
 // ---- C20 ---------------------------------------------------------------------
@@ -663,15 +499,4 @@ func truncateRule(r *Run) {
 	if nOpt == 0 {
 		r.Bad("R6", f.Name(), "options are not read", w.Pos(f.Decl.Pos()), "size and trail must come from the options")
 	}
-}
-
-func mentions(info *types.Info, e ast.Expr, o types.Object) bool {
-	found := false
-	ast.Inspect(e, func(n ast.Node) bool {
-		if id, ok := n.(*ast.Ident); ok && info.Uses[id] == o {
-			found = true
-		}
-		return true
-	})
-	return found
 }
